@@ -205,12 +205,77 @@ def inline_new_helpers(j, known=None):
     # closures nested in new helpers are not inlined themselves; a new helper that only exists as a closure owner is fine
     if not new:
         return j, {'inlined': [], 'renamed': amap}
+    # mutual recursion among new helpers (a recursive walker split into per-arm methods): the other members of the cycle are
+    # folded into its entry (the member called from outside), which thereby becomes directly self-recursive -- like the
+    # function it replaced -- and is then kept as a function of its own instead of being unrolled into its callers
+    def callees_of(fn):
+        out = set()
+        for blk in fn['blocks']:
+            t = blk['term']
+            if t['k'] == 'call' and not blk['cleanup']:
+                for name in (t.get('callee'), t.get('resolved')):
+                    if name in new:
+                        out.add(name)
+        return out
+    graph = {p: callees_of(byp[p]) for p in new}
+
+    def reach_from(p):
+        seen, st = set(), [p]
+        while st:
+            x = st.pop()
+            for y in graph.get(x, ()):
+                if y not in seen:
+                    seen.add(y)
+                    st.append(y)
+        return seen
+    reach = {p: reach_from(p) for p in new}
+    cyc = {p for p in new if p in reach[p]}
+    fold = {}            # cycle entry -> members folded into it
+    keep_out = set()     # functions that must not be inlined into outside callers
+    done = set()
+    for p in sorted(cyc):
+        if p in done:
+            continue
+        scc = {q for q in cyc if q in reach[p] and p in reach[q]} | {p}
+        done |= scc
+        outside = set()
+        for f in j['fns']:
+            if f['path'] in scc or f.get('in_test'):
+                continue
+            for blk in f['blocks']:
+                t = blk['term']
+                if t['k'] == 'call' and not blk['cleanup']:
+                    for name in (t.get('callee'), t.get('resolved')):
+                        if name in scc:
+                            outside.add(name)
+        keep_out |= scc
+        if len(outside) == 1:
+            fold[next(iter(outside))] = scc - outside
     out = copy.deepcopy(j)
     fns = {}
     for f in out['fns']:
         fns.setdefault(f['path'], f)
     orig = {p: copy.deepcopy(byp[p]) for p in new}
     report = []
+    for head, members in fold.items():
+        hf = fns[head]
+        for _ in range(4):
+            changed = False
+            bi = 0
+            while bi < len(hf['blocks']):
+                blk = hf['blocks'][bi]
+                t = blk['term']
+                if not blk['cleanup'] and t['k'] == 'call':
+                    name = t.get('callee') if t.get('callee') in members else (t.get('resolved') if t.get('resolved') in members else None)
+                    if name and len(hf['blocks']) < 900:
+                        splice(hf, bi, orig[name])
+                        report.append((head, name))
+                        changed = True
+                bi += 1
+            if not changed:
+                break
+        orig[head] = copy.deepcopy(hf)
+    new = new - keep_out
     for _ in range(ROUNDS):
         changed = False
         for f in out['fns']:
